@@ -474,7 +474,9 @@ Lemma runt_done_by_deadline sigma now eps D e i o :
 Proof.
   intros B Hs Hr He. destruct (runt_returns_by sigma now eps D e i o B Hs) as (r & T & L).
   exists r. split; [exact T|]. pose proof (grace_ge_min (D - now)) as G.
-  assert ((grace_reserve - 1) * grace (D - now) >= grace (D - now)) by nia.
+  assert (P : 0 < min_grace) by reflexivity.
+  assert ((grace_reserve - 1) * grace (D - now) >= grace (D - now)).
+  { generalize dependent (grace (D - now)). generalize dependent grace_reserve. intros. nia. }
   destruct e; lia.
 Qed.
 
